@@ -123,7 +123,32 @@ def mk_bpe_vocab(rng, name, style):
     pool = [mapped(c.encode()) for c in BPE_ALPHA]
     pool = [p for p in pool if len(p) == 1] + [ch for c in BPE_ALPHA for ch in mapped(c.encode())]
     have = set(values)
-    for _ in range(rng.randint(25, 60)):
+    if style == "overlap":
+        # overlapping pairs: XY and YZ are merges with random ranks, the triple XYZ is a merge/token or not at random, so
+        # that a queued pair goes stale because one of its ends was merged with its other neighbour first
+        L = [mapped(c.encode()) for c in OVERLAP_ALPHA]
+        cand = []
+        for x in L:
+            for y in L:
+                if rng.random() < 0.65:
+                    cand.append((x, y))
+        pairs = list(cand)
+        for x, y in pairs:
+            for z in L:
+                if (y, z) in pairs:
+                    if rng.random() < 0.35:
+                        cand.append((x + y, z))
+                    if rng.random() < 0.35:
+                        cand.append((x, y + z))
+        rng.shuffle(cand)
+        for l, r in cand:
+            merges.append((l + " " + r).encode())
+            if (len(l + r) == 2 or rng.random() < 0.6) and (l + r).encode() not in have:
+                values.append((l + r).encode())
+                types.append(1)
+                have.add((l + r).encode())
+        pool = []
+    for _ in range(rng.randint(25, 60) if pool else 0):
         l, r = rng.choice(pool), rng.choice(pool)
         if len(l) + len(r) > 8:
             continue
@@ -146,6 +171,8 @@ def mk_bpe_vocab(rng, name, style):
     pats = repo_patterns()
     v = Vocab(name, "bpe", values, types, [], merges, bos=bos, eos=bos + 1, add_bos=True, add_eos=(style == "safe105"), complete=complete)
     # the pattern strings come from the CURRENT sources; the model of each is fixed (Tok/Pretok.v)
+    if style == "overlap":
+        v.alpha = OVERLAP_ALPHA
     if style == "simple":
         v.pre, v.which = pats.get("model/models/mistral3/model_text.go", TEKKEN_PRE), 1
     elif style == "safe105":
@@ -155,6 +182,7 @@ def mk_bpe_vocab(rng, name, style):
     return v
 
 
+OVERLAP_ALPHA = ["q", "z", "x", "w", " ", " "]
 SPM_ALPHA = list("abcde") + [" ", " ", " ", "1", ".", "é", "€", "́", "\U0001F600", "~"]
 
 
@@ -168,10 +196,26 @@ def mk_spm_vocab(rng, name, style):
     # (a vocabulary that "covers every byte" has the whitespace marker itself as a token: otherwise a space falls back to the
     #  bytes of U+2581 and decodes as U+2581)
     pool = [s for s in singles]
+    if style == "overlap":
+        # overlapping pieces around the whitespace marker: XY and YZ are pieces with random scores, XYZ is a piece or not at
+        # random: a queued candidate (X, Y) goes stale when Y absorbs Z first (or X is absorbed by its left neighbour)
+        L = [c.replace(" ", SEP) for c in OVERLAP_ALPHA]
+        L = sorted(set(L))
+        normal = list(L)
+        pairs = [(x, y) for x in L for y in L if rng.random() < 0.65]
+        normal += [x + y for x, y in pairs]
+        for x, y in pairs:
+            for z in L:
+                if (y, z) in pairs and rng.random() < 0.3:
+                    normal.append(x + y + z)
+        for _ in range(6):
+            normal.append("".join(rng.choice(L) for _ in range(4)))
+        rng.shuffle(normal)
+        singles, drop, pool = [], set(), []
     for s in singles:
         if s not in drop:
             normal.append(s)
-    for _ in range(rng.randint(20, 50)):
+    for _ in range(rng.randint(20, 50) if pool else 0):
         l, r = rng.choice(pool), rng.choice(pool)
         if len(l + r) > 6:
             continue
@@ -215,7 +259,10 @@ def mk_spm_vocab(rng, name, style):
         values.append(t)
         types.append(3)
         scores.append(0)
-    return Vocab(name, "spm", values, types, scores, [], bos=1, eos=2, add_bos=True, add_eos=(style == "normal-first"), complete=complete)
+    v = Vocab(name, "spm", values, types, scores, [], bos=1, eos=2, add_bos=True, add_eos=(style == "normal-first"), complete=complete)
+    if style == "overlap":
+        v.alpha = OVERLAP_ALPHA
+    return v
 
 
 def load_llama(name):
@@ -326,9 +373,9 @@ def gen(ctx):
     rng = ctx.rng
     q = ctx.quick()
     vocabs = []
-    for i, st in enumerate(["std", "safe105", "simple", "incomplete"] if q else ["std", "safe105", "simple", "incomplete", "std", "safe105", "simple"]):
+    for i, st in enumerate(["std", "safe105", "simple", "incomplete", "overlap"] if q else ["std", "safe105", "simple", "incomplete", "overlap", "std", "safe105", "simple", "overlap"]):
         vocabs.append(mk_bpe_vocab(rng, "vb%d" % i, st))
-    for i, st in enumerate(["bytes-first", "normal-first", "incomplete"] if q else ["bytes-first", "normal-first", "incomplete", "bytes-first", "normal-first"]):
+    for i, st in enumerate(["bytes-first", "normal-first", "incomplete", "overlap"] if q else ["bytes-first", "normal-first", "incomplete", "overlap", "bytes-first", "normal-first", "overlap"]):
         vocabs.append(mk_spm_vocab(rng, "vs%d" % i, st))
     llama = load_llama("vl")
     vocabs.append(llama)
@@ -363,7 +410,7 @@ def gen(ctx):
                 add(v, bytes.fromhex(c["text"]), "corpus")
     per = (70 if q else 900)
     for v in vocabs:
-        alpha = None if v.sparse else (BPE_ALPHA if v.kind == "bpe" else SPM_ALPHA)
+        alpha = None if v.sparse else getattr(v, "alpha", None) or (BPE_ALPHA if v.kind == "bpe" else SPM_ALPHA)
         for t in coverage_texts():
             add(v, t, "byte-coverage")
         for w in WORDS:
@@ -378,6 +425,8 @@ def gen(ctx):
         # exhaustive small scope: every string up to a length over a few symbols (all merge orders of short inputs)
         import itertools
         syms, maxl = (("a", "b", " "), 3) if q else (("a", "b", " ", "~"), 5 if not v.sparse else 4)
+        if getattr(v, "alpha", None):
+            syms, maxl = ("q", "z", "x", " "), (4 if q else 6)
         for L in range(1, maxl + 1):
             for tup in itertools.product(syms, repeat=L):
                 add(v, "".join(tup), "exhaustive-short")
@@ -461,7 +510,7 @@ def gen(ctx):
         sps = [x for x in v.specials if x]
         if len(sps) < 2:
             continue
-        alpha = None if v.sparse else (BPE_ALPHA if v.kind == "bpe" else SPM_ALPHA)
+        alpha = None if v.sparse else getattr(v, "alpha", None) or (BPE_ALPHA if v.kind == "bpe" else SPM_ALPHA)
         fixed = []
         for i in range(len(sps)):
             for j in range(len(sps)):
